@@ -77,7 +77,8 @@ def cases(draw, tier):
             prev = lab
         outs.append(prev)
         nl = dict(nl, gates=gates, outputs=outs)
-    return {'nl': nl, 'route': draw(gen.routes(nl)), 'spec': spec, 'reuse_instance': draw(st.booleans())}
+    return {'nl': nl, 'route': draw(gen.routes(nl)), 'spec': spec, 'reuse_instance': draw(st.booleans()),
+            'hand': draw(st.sampled_from(['list', 'tuple', 'iter']))}
 
 
 def _mods():
@@ -139,12 +140,27 @@ def _instance(spec, reuse):
     return _INSTANCES[key]
 
 
-def apply_spec(spec, circuit, reuse=False):
+def _declares_iterable(fn) -> bool:
+    import inspect
+
+    try:
+        return any('Iterable' in str(p.annotation) for p in inspect.signature(fn).parameters.values())
+    except (TypeError, ValueError):
+        return False
+
+
+def apply_spec(spec, circuit, reuse=False, hand='list'):
     m = _mods()
     if spec[0] == 'cleanup':
         return m['cleanup'](circuit, use_heavy=bool(spec[1]))
     if spec[0] == 'list':
-        return m['Transformer'].apply_transformers(circuit, [_instance(s, reuse) for s in spec[1]])
+        passes = [_instance(s, reuse) for s in spec[1]]
+        fn = m['Transformer'].apply_transformers
+        # the collection of passes as a list, a tuple, or - the parameter is declared Iterable - a one-shot generator
+        if hand == 'iter' and not _declares_iterable(fn):
+            hand = 'tuple'
+        arg = tuple(passes) if hand == 'tuple' else (p for p in passes) if hand == 'iter' else passes
+        return fn(circuit, arg)
     return _instance(spec, reuse).transform(circuit)
 
 
